@@ -229,7 +229,7 @@ func toPorc(ops []hop) []porcupine.Operation {
 
 type c18Plan struct {
 	Backend  string   `json:"backend"`
-	Mode     string   `json:"mode"` // mixed | same-child | free-lease
+	Mode     string   `json:"mode"` // mixed | same-child | free-lease | expired-lease
 	Clients  int      `json:"clients"`
 	OpsEach  int      `json:"ops_each"`
 	Keys     []string `json:"keys"`
@@ -314,6 +314,15 @@ func isDocumented(kind, e string) bool {
 func runPlan(opn *opener, p c18Plan) (ops []hop, firsts []hop) {
 	s := opn.open(p.Backend, chord.Hash)
 	defer s.destroy()
+	if p.Mode == "expired-lease" {
+		// the lease that all goroutines race for was held before and its grant ran out without a
+		// release (the holder died): it is free, but the store still records the old token. The
+		// grant is installed the way a key transfer installs one (tokens are expiry times).
+		past := uint64(time.Now().Add(-time.Hour).UnixNano())
+		if err := s.kv.Import(bg, [][]byte{[]byte(p.Keys[0])}, []*protocol.KVTransfer{{LeaseToken: past}}); err != nil {
+			panic("harness: cannot install an expired grant: " + err.Error())
+		}
+	}
 	rec := &recorder{}
 	var wg, firstDone sync.WaitGroup
 	var ready atomic.Int32
@@ -334,7 +343,7 @@ func runPlan(opn *opener, p c18Plan) (ops []hop, firsts []hop) {
 				h := hop{Client: c, Key: key}
 				if i == 0 && p.Mode == "same-child" {
 					h.Kind, h.Key, h.Arg = "Append", p.Keys[0], p.Children[0]
-				} else if i == 0 && p.Mode == "free-lease" {
+				} else if i == 0 && (p.Mode == "free-lease" || p.Mode == "expired-lease") {
 					h.Kind, h.Key = "Acquire", p.Keys[0]
 				} else {
 					switch x := rng.Intn(20); {
@@ -566,7 +575,7 @@ func listVsWriter(backend string, opn *opener, n int) (history []hop, overlapped
 func TestC18(t *testing.T) {
 	const id = "C18"
 	rec := ev.New(t, id)
-	rec.Rule("seeded-PRNG workloads: 2..8 goroutines x 10..40 (memory/aof up to 120) operations on 2..3 keys of one backend (Put with unique values, Get, Delete, PrefixAppend/Remove/Contains/List over 3 children, Acquire/Renew/Release with own-latest, own-older and forged tokens, lease read through Export), released together; sub-generators 'same child appended by all' and 'free lease acquired by all' as the first operation of every goroutine; a quiescent read-back of every key closes the history. Oracle: porcupine per (key, keyspace) with register / set / lease sequential specifications, failed operations as must-be-no-ops, plus exact-once counts for the two races. Non-trivial: two mutating operations of different goroutines overlapped in time on one (key, keyspace). Distinct = distinct plans (backend, mode, goroutines, ops, keys, seed).")
+	rec.Rule("seeded-PRNG workloads: 2..8 goroutines x 10..40 (memory/aof up to 120) operations on 2..3 keys of one backend (Put with unique values, Get, Delete, PrefixAppend/Remove/Contains/List over 3 children, Acquire/Renew/Release with own-latest, own-older and forged tokens, lease read through Export), released together; sub-generators 'same child appended by all', 'free lease acquired by all' and 'lease whose previous grant ran out without a release acquired by all' as the first operation of every goroutine; a quiescent read-back of every key closes the history. Oracle: porcupine per (key, keyspace) with register / set / lease sequential specifications, failed operations as must-be-no-ops, plus exact-once counts for the two races. Non-trivial: two mutating operations of different goroutines overlapped in time on one (key, keyspace). Distinct = distinct plans (backend, mode, goroutines, ops, keys, seed).")
 	rec.Assume("lease TTL is one hour: no grant expires within a history", "time stamps come from one atomic counter read before the call and after the return (sound: never orders two operations that overlapped)",
 		"porcupine budget 20 s per partition; 'unknown' is inconclusive")
 	if raceEnabled {
@@ -620,7 +629,7 @@ func TestC18(t *testing.T) {
 	for i := 0; i < n && !stop; i++ {
 		p := c18Plan{
 			Backend:  allBackends[i%3],
-			Mode:     []string{"mixed", "mixed", "same-child", "free-lease"}[rng.Intn(4)],
+			Mode:     []string{"mixed", "mixed", "same-child", "free-lease", "expired-lease"}[rng.Intn(5)],
 			Clients:  2 + rng.Intn(7),
 			OpsEach:  10 + rng.Intn(31),
 			Keys:     keyAlphabet[:2+rng.Intn(2)],
@@ -674,7 +683,7 @@ func TestC18(t *testing.T) {
 				rec.Inconclusive("porcupine-budget")
 			}
 			// exact-once races
-			if p.Mode == "same-child" || p.Mode == "free-lease" {
+			if p.Mode == "same-child" || p.Mode == "free-lease" || p.Mode == "expired-lease" {
 				okN, confN, other := 0, 0, 0
 				for _, h := range firsts {
 					switch h.Err {
